@@ -78,9 +78,10 @@ def attr_chain(node) -> Optional[str]:
     return _dotted(node)
 
 
-def subst_single_assign(A: Analysis, func: FuncInfo, expr):
+def subst_single_assign(A: Analysis, func: FuncInfo, expr, identity=False):
     """If expr is a Name bound by exactly one plain assignment in func (or, for a free variable of a nested function,
-    in the enclosing function that binds it), return that value expression (else expr)."""
+    in the enclosing function that binds it), return that value expression (else expr).  identity=True: the question is
+    *which object* the name is bound to (where it came from), so later in-place changes of that object do not matter."""
     seen = 0
     while isinstance(expr, ast.Name) and seen < 5:
         f = func
@@ -91,6 +92,12 @@ def subst_single_assign(A: Analysis, func: FuncInfo, expr):
                 defs = d if expr.id not in f.params else None
                 break
             f = f.parent
+        if defs and any(d_[0] == 'mut' for d_ in defs):
+            # changed in place after its definition: the name still *is* what an alias-like definition denotes
+            # (`log = self._run_info['log']; log.append(x)`), but not what a constructing one evaluates to (`d = deepcopy(a); d.update(b)`)
+            rest_ = [d_ for d_ in defs if d_[0] != 'mut']
+            if len(rest_) == 1 and rest_[0][0] == 'assign' and (identity or isinstance(rest_[0][1], (ast.Attribute, ast.Subscript, ast.Name))):
+                defs = rest_
         if not defs or len(defs) != 1 or defs[0][0] != 'assign':
             break
         v = defs[0][1]
@@ -197,6 +204,104 @@ def loop_runs_to_end(loop_ast) -> bool:
     return all(walk(st, True) if not isinstance(st, (ast.Return, ast.Break)) else False for st in loop_ast.body)
 
 
+def _path_without_assignment(cfg: CFG, starts, reads, assigning) -> bool:
+    """A path from `starts` to `reads` on which no node of `assigning` completes: such a node may only be left through its
+    exception edge (the statement failed before it stored)."""
+    from collections import deque
+    q = deque(starts)
+    seen = set(starts)
+    while q:
+        u = q.popleft()
+        if u in reads and u not in assigning:
+            return True
+        for v in cfg.g.successors(u):
+            if v in seen:
+                continue
+            if u in assigning and cfg.g[u][v]['labels'] != ['exc']:
+                continue
+            seen.add(v)
+            q.append(v)
+    return False
+
+
+def loop_carried(cfg: CFG, loop_ast, func_node=None):
+    """Reads inside the loop body that can see what an *earlier iteration* (or the code before the loop) left in a local
+    which the body itself assigns: [(name, read node, assigning statements)].  A path leads from the body entry to the
+    read that passes none of the body's assignments of the name.  Not reported: in-place accumulators (`x += ..`,
+    `x = f(x)`), and names that are read again after the loop (search results / collected values are meant to be carried)."""
+    heads = [n for n in cfg.nodes.values() if n.kind == 'for' and n.ast is loop_ast]
+    if not heads:
+        return []
+
+    def walk(n, hidden=frozenset()):
+        for c in ast.iter_child_nodes(n):
+            if isinstance(c, (ast.FunctionDef, ast.AsyncFunctionDef, ast.Lambda, ast.ClassDef)):
+                continue
+            if isinstance(c, (ast.ListComp, ast.SetComp, ast.DictComp, ast.GeneratorExp)):
+                # a comprehension has its own scope: the names its generators bind are not the loop's locals
+                own = {x.id for g in c.generators for x in ast.walk(g.target) if isinstance(x, ast.Name)}
+                for x in walk(c, hidden | own):
+                    yield x
+                continue
+            if isinstance(c, ast.Name) and c.id in hidden:
+                continue
+            if isinstance(c, ast.comprehension):
+                yield from walk(c, hidden)
+                continue
+            yield c
+            yield from walk(c, hidden)
+
+    body = [x for st in loop_ast.body for x in [st] + list(walk(st))]
+    assigns = {}
+    selfref = set()
+    for st in body:
+        tgts = []
+        if isinstance(st, ast.Assign):
+            tgts = st.targets
+        elif isinstance(st, ast.AnnAssign) and st.value is not None:
+            tgts = [st.target]
+        elif isinstance(st, ast.NamedExpr):
+            tgts = [st.target]
+        elif isinstance(st, (ast.For, ast.AsyncFor)):
+            tgts = [st.target]
+        elif isinstance(st, ast.AugAssign) and isinstance(st.target, ast.Name):
+            selfref.add(st.target.id)
+        elif isinstance(st, ast.ExceptHandler) and st.name:
+            assigns.setdefault(st.name, []).append(st)
+        elif isinstance(st, (ast.With, ast.AsyncWith)):
+            tgts = [i.optional_vars for i in st.items if i.optional_vars is not None]
+        for t in tgts:
+            for x in ast.walk(t):
+                if isinstance(x, ast.Name) and isinstance(x.ctx, ast.Store):
+                    assigns.setdefault(x.id, []).append(st)
+                    val = getattr(st, 'value', None)
+                    if val is not None and any(isinstance(y, ast.Name) and y.id == x.id for y in ast.walk(val)):
+                        selfref.add(x.id)
+    end = max(getattr(st, 'end_lineno', st.lineno) for st in loop_ast.body)      # the else clause runs after the last iteration
+    after = set()
+    if func_node is not None:
+        for x in ast.walk(func_node):
+            if isinstance(x, ast.Name) and isinstance(x.ctx, ast.Load) and x.lineno > end:
+                after.add(x.id)
+    out = []
+    seen = set()
+    # flags toggled by constants (`first = False`) are meant to be carried
+    toggles = {v for v, sts in assigns.items() if all(isinstance(st, (ast.Assign, ast.AnnAssign)) and isinstance(st.value, ast.Constant) for st in sts)}
+    for x in body:
+        if not (isinstance(x, ast.Name) and isinstance(x.ctx, ast.Load) and x.id in assigns) or x.id in selfref or x.id in after or x.id in toggles:
+            continue
+        avoid = {n.id for st in assigns[x.id] for n in cfg_nodes_for(cfg, st)} | {n.id for st in assigns[x.id] if isinstance(st, (ast.For, ast.AsyncFor, ast.ExceptHandler)) for n in cfg.nodes.values() if n.kind in ('for', 'handler') and n.ast is st}
+        reads = {n.id for n in cfg_nodes_for(cfg, x)} - avoid
+        if not reads:
+            continue
+        for h in heads:
+            starts = [s_ for s_ in cfg.succ_by_label(h.id, 'loop')]
+            if starts and _path_without_assignment(cfg, starts, reads, avoid) and (x.id, x.lineno) not in seen:
+                seen.add((x.id, x.lineno))
+                out.append((x.id, x, assigns[x.id]))
+    return out
+
+
 def src_resolved(A: Analysis, func: FuncInfo, expr, depth=3) -> str:
     """Source text of expr with every single-assignment local replaced by its defining expression (recursively): text
     matching that does not depend on intermediate locals."""
@@ -265,3 +370,159 @@ def resolve_expr(A: Analysis, root: FuncInfo, e, owner: FuncInfo, sites, keep=()
     if e2 is not e:
         return resolve_expr(A, root, e2, owner, sites, keep, depth + 1)
     return e
+
+
+def check_iteration_independence(A: Analysis, R, rid: str, funcs, why: str):
+    """Every loop of the given functions: an iteration reads no local left behind by an earlier iteration (see loop_carried)."""
+    n = 0
+    allf = []
+    for f in funcs:
+        if f is None:
+            continue
+        allf.append(f)
+        stack = list(f.nested.values())
+        while stack:
+            g = stack.pop()
+            allf.append(g)
+            stack.extend(g.nested.values())
+    for f in allf:
+        cfg = A.cfg(f, inline=False)
+        for lp in [x for x in A.typer.own_nodes(f) if isinstance(x, (ast.For, ast.AsyncFor))]:
+            n += 1
+            carried = loop_carried(cfg, lp, f.node)
+            names = sorted({v for v, _, _ in carried})
+            from ..report import key_of
+            R.check(not carried, rid, f'{f.short}: `for {src(lp.target)[:30]} in {src(lp.iter)[:40]}`', key_of('carried', f.short, names), 'each iteration defines the locals it reads',
+                    f'`{", ".join(names)}` can still hold the value of an earlier iteration when it is read at line {carried[0][1].lineno if carried else 0}: {why}', where=where(f, carried[0][1] if carried else lp))
+    return n
+
+
+def first_pass_registry(A: Analysis, fprep: FuncInfo, call: ast.Call) -> str:
+    """What `_create_tasks(task_registry=...)` receives in Chain._prepare when the chain is in parameter mode: 'None', or the
+    pretty-printed term.  Decided on the term of the argument under the assumption `self._parameter_mode` is true, so the
+    test may be written either way round, through locals, or as an if statement."""
+    from ..terms import assume, pretty
+    arg = next((kw.value for kw in call.keywords if kw.arg == 'task_registry'), call.args[0] if call.args else None)
+    if arg is None:
+        return 'None'
+    chain = A.cls('Chain')
+    ts = A.sym.terms_at(fprep, ('inst', chain), [arg]).get(id(arg), [])
+    if not ts:
+        return src(arg)
+
+    def decide(c):
+        if c == ('attr', ('self',), '_parameter_mode'):
+            return True
+        if c[0] == 'cmp' and c[2] == ('attr', ('self',), '_parameter_mode') and c[3] in (('lit', True), ('lit', False)):
+            return (c[3][1] is True) == (c[1] in ('Is', 'Eq'))
+        return None
+
+    vals = {pretty(assume(t, decide)) for t in ts}
+    if vals <= {'None'}:
+        return 'None'
+    return sorted(vals - {'None'})[0]
+
+
+def returns_constant_from(cfg: CFG, start_ids, const) -> Optional[bool]:
+    """Every way from the given nodes to a return of the function returns the constant `const` - written directly, or
+    through a local that was assigned the constant on the way (and not reassigned before the return).  None: no return reachable."""
+    import networkx as nx
+    starts = list(start_ids)
+    reach = set(starts)
+    for s_ in starts:
+        reach |= nx.descendants(cfg.g, s_)
+    rets = [n for n in cfg.nodes.values() if n.id in reach and n.kind == 'stmt' and isinstance(n.ast, ast.Return)]
+    if not rets:
+        return None
+    for r in rets:
+        v = r.ast.value
+        if isinstance(v, ast.Constant) and v.value is const:
+            continue
+        if not isinstance(v, ast.Name):
+            return False
+        assigns = [n for n in cfg.nodes.values() if n.kind == 'stmt' and isinstance(n.ast, (ast.Assign, ast.AnnAssign, ast.AugAssign)) and
+                   any(isinstance(x, ast.Name) and x.id == v.id and isinstance(x.ctx, ast.Store) for x in ast.walk(n.ast))]
+        good = [n for n in assigns if n.id in reach and isinstance(n.ast, (ast.Assign, ast.AnnAssign)) and isinstance(n.ast.value, ast.Constant) and n.ast.value.value is const]
+        bad = [n.id for n in assigns if n not in good]
+        # every path from the start to the return passes a good assignment, and after it no other assignment
+        if not good or cfg.find_path(starts, [r.id], avoid=[n.id for n in good]) is not None:
+            return False
+        for g_ in good:
+            mid = [b for b in bad if cfg.path_exists([g_.id], [b]) and cfg.path_exists([b], [r.id])]
+            if mid and cfg.find_path([g_.id], [r.id], avoid=bad) is None:
+                return False
+            if mid:
+                # some path from the good assignment reaches the return through a reassignment
+                for b in mid:
+                    if cfg.find_path([g_.id], [b], avoid=[x for x in bad if x != b]) is not None:
+                        return False
+    return True
+
+
+_CONSUMERS = {'list', 'tuple', 'set', 'frozenset', 'sorted', 'sum', 'min', 'max', 'any', 'all', 'dict', 'iter', 'next', 'reversed', 'Counter', 'deque', 'array', 'asarray'}
+_WRAPPERS = {'enumerate', 'zip', 'map', 'filter', 'tqdm', 'progress_bar', 'chain', 'islice', 'chunked', 'iter'}
+
+
+def consumption_sites(A: Analysis, func: FuncInfo, name: str):
+    """AST nodes at which the iterable held by local / parameter `name` is (partly) consumed: a loop or comprehension over it,
+    a collecting builtin, iter()/next() - directly or through lazy wrappers (enumerate, zip, tqdm, progress_bar, ...).  For a
+    one-shot iterator (a generator handed in by the caller) every site sees only what the earlier ones left."""
+    aliases = {name}
+    nodes = list(A.typer.own_nodes(func))
+    changed = True
+
+    def wraps(e):
+        if isinstance(e, ast.Name):
+            return e.id in aliases
+        if isinstance(e, ast.Call):
+            fn = src(e.func).split('.')[-1]
+            if fn in _WRAPPERS:
+                return any(wraps(a) for a in e.args)
+        return False
+
+    while changed:
+        changed = False
+        for n in nodes:
+            if isinstance(n, ast.Assign) and len(n.targets) == 1 and isinstance(n.targets[0], ast.Name) and n.targets[0].id not in aliases and wraps(n.value) and \
+                    not (isinstance(n.value, ast.Call) and src(n.value.func).split('.')[-1] in _CONSUMERS - {'iter'}):
+                aliases.add(n.targets[0].id)
+                changed = True
+    sites = []
+    for n in nodes:
+        if isinstance(n, (ast.For, ast.AsyncFor)) and wraps(n.iter):
+            sites.append(n)
+        elif isinstance(n, ast.comprehension) and wraps(n.iter):
+            sites.append(n)
+        elif isinstance(n, ast.Call):
+            fn = src(n.func).split('.')[-1]
+            if fn in _CONSUMERS - {'iter'} and n.args and wraps(n.args[0]) and not (fn == 'next' and isinstance(n.args[0], ast.Name) and False):
+                sites.append(n)
+            elif fn == 'join' and n.args and wraps(n.args[0]):
+                sites.append(n)
+        elif isinstance(n, ast.Starred) and wraps(n.value):
+            sites.append(n)
+    return sites
+
+
+def consumed_more_than_once(A: Analysis, func: FuncInfo, name: str):
+    """(first site, second site) if some execution consumes the iterable twice (a path leads from one consumption site to
+    another, or a site that does not exhaust it - next() - is followed by one), else None."""
+    cfg = A.cfg(func, inline=False)
+    sites = consumption_sites(A, func, name)
+
+    def ids(n):
+        if isinstance(n, ast.comprehension):
+            par = getattr(n, '_parent', None)
+            return [c.id for c in cfg_nodes_for(cfg, par)] if par is not None else []
+        if isinstance(n, (ast.For, ast.AsyncFor)):
+            return [c.id for c in cfg.nodes.values() if c.kind == 'for' and c.ast is n]
+        return [c.id for c in cfg_nodes_for(cfg, n)]
+    for i, a in enumerate(sites):
+        for j, b in enumerate(sites):
+            if i == j:
+                continue
+            ia, ib = ids(a), ids(b)
+            if ia and ib and (set(ia) & set(ib) or cfg.find_path([s_ for x in ia for s_ in cfg.g.successors(x)], ib) is not None):
+                if (getattr(a, 'lineno', 0), getattr(a, 'col_offset', 0)) <= (getattr(b, 'lineno', 0), getattr(b, 'col_offset', 0)) or not (set(ia) & set(ib)):
+                    return a, b
+    return None
